@@ -47,12 +47,10 @@ func (authenticator *CertificateAuthenticator) Authenticate(conn Conn) (bool, er
 	if !ok {
 		return false, nil
 	}
-	for _, cert := range conState.PeerCertificates {
-		if 0 < len(authenticator.commonName) {
-			if cert.Subject.CommonName == authenticator.commonName {
-				return true, nil
-			}
-		}
+	// Only the leaf certificate identifies the client, the rest of the chain
+	// are the certificates of its issuers.
+	if len(conState.PeerCertificates) == 0 || len(authenticator.commonName) == 0 {
+		return false, nil
 	}
-	return false, nil
+	return conState.PeerCertificates[0].Subject.CommonName == authenticator.commonName, nil
 }
